@@ -232,7 +232,7 @@ const SWAP_WORDS: &[&str] = &["int", "float", "str", "bool", "void", "self", "st
 pub const FAULT_KINDS: &[&str] = &[
     "trunc-char", "trunc-line", "replace-char", "insert-char", "delete-char", "splice", "drop-lines", "dup-lines",
     "move-lines", "insert-foreign", "conflict", "multibyte", "token-soup", "empty", "crlf", "remove", "ioerr",
-    "insert-decl", "rename-ident", "swap-literal", "reflow", "alias-start", "wildcard-import", "join-lines",
+    "insert-decl", "rename-ident", "swap-literal", "reflow", "alias-start", "wildcard-import", "join-lines", "bom", "strip-final-newline",
 ];
 
 fn make_fault(r: &mut Rng, kind: &str, file: &str, text: &str, corpus: &Corpus, c: &Concrete) -> Option<Fault> {
@@ -371,6 +371,15 @@ fn make_fault(r: &mut Rng, kind: &str, file: &str, text: &str, corpus: &Corpus, 
             positions.sort();
             positions.dedup();
             Fault::Reflow { file, positions, indent: *r.pick(&[0usize, 0, 1, 4, 8]) }
+        }
+        "bom" => Fault::InsertChar { file, at: 0, ch: '\u{feff}' },
+        "strip-final-newline" => {
+            let n = text.chars().count();
+            let trailing = text.chars().rev().take_while(|c| *c == '\n' || *c == '\r' || *c == ' ').count();
+            if trailing == 0 {
+                return None;
+            }
+            Fault::TruncChar { file, at: n - trailing }
         }
         "join-lines" => {
             // a lost line break: line k and line k+1 become one line (joined by a space, or by nothing)
